@@ -49,11 +49,40 @@ var astWhitelist = []string{
 	"saltpack.nonceForDerivedSharedKey",
 	"saltpack.nonceForSenderKeySecretBox",
 	"saltpack.encryptionBlockNumber_check",
+	// stateful functions (GoLang2 semantics)
+	"saltpack.decryptStream_tryVisibleReceivers",
+	"saltpack.decryptStream_tryHiddenReceivers",
+	"saltpack.decryptStream_processHeader",
+	"saltpack.signcryptOpenStream_processHeader",
+	"saltpack.signcryptOpenStream_tryBoxSecretKeys",
+	"saltpack.signcryptOpenStream_trySharedSymmetricKeys",
+	"saltpack.chunkReader_Read",
+	"saltpack.punctuatedReader_Read",
+	"saltpack.punctuatedReader_ReadUntilPunctuation",
+	"saltpack.armorEncoderStream_Write",
+	"saltpack.armorEncoderStream_spaceAndOutputBuffer",
+	"saltpack.armorEncoderStream_Close",
+	"basex.encoder_Write",
+	"basex.encoder_Close",
+	"saltpack.encryptStream_Write",
+	"saltpack.encryptStream_Close",
+	"saltpack.encryptStream_encryptBlock",
+	"saltpack.encryptStream_init",
+	"saltpack.verifyStream_readHeader",
+	"saltpack.verifyStream_getNextChunk",
+	"saltpack.decryptStream_getNextChunk",
+	"saltpack.signcryptOpenStream_getNextChunk",
+	"saltpack.symmetricKeyFromSlice",
+	"saltpack.rawBoxKeyFromSlice",
+	"saltpack.checkEncryptReceivers",
+	"saltpack.shuffleEncryptReceivers",
+	"saltpack.csprngShuffle",
 }
 
 type astGen struct {
-	info *types.Info
-	pkg  *types.Package
+	info    *types.Info
+	pkg     *types.Package
+	results []string // names of the named results (for bare returns)
 }
 
 func coqStr(s string) string {
@@ -189,6 +218,9 @@ func (g *astGen) expr(e ast.Expr) string {
 		}
 		return fmt.Sprintf("(ESel %s %s)", g.expr(x.X), coqStr(x.Sel.Name))
 	case *ast.IndexExpr:
+		if _, isMap := g.info.TypeOf(x.X).Underlying().(*types.Map); isMap {
+			return fmt.Sprintf("(EMapGet %s %s)", g.expr(x.X), g.expr(x.Index))
+		}
 		return fmt.Sprintf("(EIdx %s %s)", g.expr(x.X), g.expr(x.Index))
 	case *ast.SliceExpr:
 		if x.Slice3 {
@@ -208,6 +240,8 @@ func (g *astGen) expr(e ast.Expr) string {
 			return fmt.Sprintf("(EUnsup %s)", coqStr("operator "+x.Op.String()))
 		}
 		return fmt.Sprintf("(EBin %s %s %s %s)", op, coqStr(g.typeName(g.info.TypeOf(e))), g.expr(x.X), g.expr(x.Y))
+	case *ast.StarExpr:
+		return g.expr(x.X)
 	case *ast.UnaryExpr:
 		switch x.Op {
 		case token.NOT:
@@ -248,6 +282,11 @@ func (g *astGen) expr(e ast.Expr) string {
 				}
 			}
 			return fmt.Sprintf("(EConv %s %s)", coqStr(g.typeName(tv.Type)), g.expr(x.Args[0]))
+		}
+		if id, ok := x.Fun.(*ast.Ident); ok && id.Name == "make" && len(x.Args) >= 1 {
+			if _, isMap := g.info.TypeOf(x.Args[0]).Underlying().(*types.Map); isMap {
+				return "(ECall \"makemap\" [])"
+			}
 		}
 		if id, ok := x.Fun.(*ast.Ident); ok && id.Name == "make" && len(x.Args) == 2 {
 			return fmt.Sprintf("(ECall \"make\" [%s])", g.expr(x.Args[1]))
@@ -320,6 +359,30 @@ func (g *astGen) initStmts(s ast.Stmt) string {
 	return "[" + g.stmt(s) + "]"
 }
 
+// lval renders an assignable expression as a glval
+func (g *astGen) lval(e ast.Expr) (string, bool) {
+	switch x := e.(type) {
+	case *ast.ParenExpr:
+		return g.lval(x.X)
+	case *ast.Ident:
+		return fmt.Sprintf("(LVar %s)", coqStr(x.Name)), true
+	case *ast.StarExpr:
+		return g.lval(x.X)
+	case *ast.SelectorExpr:
+		if inner, ok := g.lval(x.X); ok {
+			return fmt.Sprintf("(LField %s %s)", inner, coqStr(x.Sel.Name)), true
+		}
+	case *ast.IndexExpr:
+		if inner, ok := g.lval(x.X); ok {
+			if _, isMap := g.info.TypeOf(x.X).Underlying().(*types.Map); isMap {
+				return fmt.Sprintf("(LMapIndex %s %s)", inner, g.expr(x.Index)), true
+			}
+			return fmt.Sprintf("(LIndex %s %s)", inner, g.expr(x.Index)), true
+		}
+	}
+	return "", false
+}
+
 func (g *astGen) lhsNames(l []ast.Expr) ([]string, bool) {
 	var out []string
 	for _, e := range l {
@@ -340,7 +403,14 @@ func (g *astGen) stmt(s ast.Stmt) string {
 			es = append(es, g.expr(e))
 		}
 		if len(x.Results) == 0 {
-			return "SUnsup \"bare return\""
+			if len(g.results) == 0 {
+				return "SReturn []"
+			}
+			var rs []string
+			for _, r := range g.results {
+				rs = append(rs, fmt.Sprintf("(EVar %s)", coqStr(r)))
+			}
+			return fmt.Sprintf("SReturn [%s]", strings.Join(rs, "; "))
 		}
 		return fmt.Sprintf("SReturn [%s]", strings.Join(es, "; "))
 	case *ast.ExprStmt:
@@ -412,7 +482,8 @@ func (g *astGen) stmt(s ast.Stmt) string {
 	case *ast.AssignStmt:
 		if len(x.Lhs) == 1 && len(x.Rhs) == 1 {
 			if ix, ok := x.Lhs[0].(*ast.IndexExpr); ok {
-				if id, ok := ix.X.(*ast.Ident); ok {
+				_, isMap := g.info.TypeOf(ix.X).Underlying().(*types.Map)
+				if id, ok := ix.X.(*ast.Ident); ok && !isMap {
 					op := "None"
 					if x.Tok != token.ASSIGN {
 						o, ok := opNames[x.Tok]
@@ -425,10 +496,31 @@ func (g *astGen) stmt(s ast.Stmt) string {
 				}
 			}
 		}
+		if len(x.Lhs) == 2 && len(x.Rhs) == 1 {
+			if ix, ok := x.Rhs[0].(*ast.IndexExpr); ok {
+				if _, isMap := g.info.TypeOf(ix.X).Underlying().(*types.Map); isMap {
+					if names, ok := g.lhsNames(x.Lhs); ok {
+						return fmt.Sprintf("SMapLookup %s %s %s %s", names[0], names[1], g.expr(ix.X), g.expr(ix.Index))
+					}
+				}
+			}
+		}
 		if x.Tok == token.ASSIGN || x.Tok == token.DEFINE {
 			names, ok := g.lhsNames(x.Lhs)
 			if !ok {
-				return "SUnsup \"assignment to a non-identifier\""
+				var ls []string
+				for _, l := range x.Lhs {
+					lv, ok := g.lval(l)
+					if !ok {
+						return "SUnsup \"assignment target\""
+					}
+					ls = append(ls, lv)
+				}
+				var es []string
+				for _, e := range x.Rhs {
+					es = append(es, g.expr(e))
+				}
+				return fmt.Sprintf("SAssignL [%s] [%s]", strings.Join(ls, "; "), strings.Join(es, "; "))
 			}
 			var es []string
 			for _, e := range x.Rhs {
@@ -440,13 +532,19 @@ func (g *astGen) stmt(s ast.Stmt) string {
 			if id, ok := x.Lhs[0].(*ast.Ident); ok {
 				return fmt.Sprintf("SOpAssign %s %s %s %s", coqStr(id.Name), op, coqStr(g.typeName(g.info.TypeOf(id))), g.expr(x.Rhs[0]))
 			}
+			if lv, ok := g.lval(x.Lhs[0]); ok {
+				return fmt.Sprintf("SOpAssignL %s %s %s %s", lv, op, coqStr(g.typeName(g.info.TypeOf(x.Lhs[0]))), g.expr(x.Rhs[0]))
+			}
 		}
 		return "SUnsup \"assignment operator\""
 	case *ast.IncDecStmt:
 		if id, ok := x.X.(*ast.Ident); ok {
 			return fmt.Sprintf("SOpAssign %s %s %s (EInt 1)", coqStr(id.Name), opNames[x.Tok], coqStr(g.typeName(g.info.TypeOf(id))))
 		}
-		return "SUnsup \"inc/dec of a non-identifier\""
+		if lv, ok := g.lval(x.X); ok {
+			return fmt.Sprintf("SOpAssignL %s %s %s (EInt 1)", lv, opNames[x.Tok], coqStr(g.typeName(g.info.TypeOf(x.X))))
+		}
+		return "SUnsup \"inc/dec target\""
 	case *ast.DeclStmt:
 		gd, ok := x.Decl.(*ast.GenDecl)
 		if ok && gd.Tok == token.VAR && len(gd.Specs) == 1 {
@@ -490,7 +588,18 @@ func (g *astGen) stmt(s ast.Stmt) string {
 			}
 			return loop
 		}
+		if x.Init == nil && x.Post == nil && x.Cond == nil {
+			return fmt.Sprintf("SFor (EBool true)\n      %s", g.block(x.Body))
+		}
 		return "SUnsup \"for without condition\""
+	case *ast.BranchStmt:
+		if x.Label == nil && x.Tok == token.BREAK {
+			return "SBreak"
+		}
+		if x.Label == nil && x.Tok == token.CONTINUE {
+			return "SContinue"
+		}
+		return "SUnsup \"labelled branch / goto\""
 	case *ast.BlockStmt:
 		return fmt.Sprintf("SIf [] (EBool true) %s []", g.block(x))
 	case *ast.EmptyStmt:
@@ -530,6 +639,13 @@ func genGoAst(pkgs []*packages.Package) string {
 				}
 				found[name] = true
 				g := &astGen{info: p.TypesInfo, pkg: p.Types}
+				if fd.Type.Results != nil {
+					for _, fl := range fd.Type.Results.List {
+						for _, n := range fl.Names {
+							g.results = append(g.results, n.Name)
+						}
+					}
+				}
 				var params, results []string
 				if fd.Recv != nil {
 					for _, fl := range fd.Recv.List {
